@@ -23,6 +23,10 @@ GenStep ==
     [] last.op = "Lookup" ->
          [op |-> "G.Lookup", depth |-> M,
           a |-> [p |-> last.a[1], h |-> last.a[2], v |-> last.a[3]]]
+    [] last.op = "Around" ->
+         [op |-> "G.Around", depth |-> M, a |-> [id |-> last.a[1], k |-> last.a[2]]]
+    [] last.op = "Higher" ->
+         [op |-> "G.Higher", depth |-> M, a |-> [ids |-> last.pre, dh |-> last.a[1], dv |-> last.a[2]]]
     [] last.op = "Notation" ->
          [op |-> "G.Notation", depth |-> M, a |-> [id |-> last.a]]
     [] last.op = "Geom" ->
